@@ -3,7 +3,7 @@ package rules
 func init() {
 	register(&Property{
 		ID:      "C04",
-		Explain: "FOLD of the message reader's pieces, each over all of its abstract inputs: Reader.NextFrame (connection bytes are consumed only by readHeader(r.Source) and the per-frame LimitedReader{Source, hdr.Length}; masked frames go through the cipher reader reset to (raw, hdr.Mask, pos 0); state table Fragmented' = !Fin, opCode' = first frame's opcode; an intermediate control frame leaves frame/opCode/utf8/State untouched), Reader.Read (decision table over frame present, fragmented, read outcome, bytes outstanding, UTF-8 validity), Reader.Discard (drain every fragment, then reset), readData (control -> handler with the Reader as source, unwanted -> Discard, wanted -> ReadAll(&rd), over scripted sequences of up to 3 frames) and ReadMessage. These are the wiring conditions every correct reassembly needs; the exactness of the concatenation over arbitrary frame sequences x chunkings x buffer sizes is a property of histories and is NOT decided here. The delivered payload is unmasked by CipherReader: the C02 stream-wrapper fold (cipher exactly the bytes the source returned, also when they arrive together with an error) is part of this check. The reader's own header decoder (decode table) and the header rules it applies (CheckHeader table) are part of this check. The control handlers (what they consume decides where the next frame is looked for) and the UTF-8 automaton (ReadMessage / ReadData validate text) are part of this check. The end-of-message reset and Discard must leave every configuration field of the Reader as it was. ReadMessage pulls payload bytes only through a Reader that still reads the connection r itself (a read-ahead layer would keep bytes of the next message); the helper-nextreader fold shows NextReader returns the very Reader that read the header, on the given source and state.",
+		Explain: "FOLD of the message reader's pieces, each over all of its abstract inputs: Reader.NextFrame (connection bytes are consumed only by readHeader(r.Source) and the per-frame LimitedReader{Source, hdr.Length}; masked frames go through the cipher reader reset to (raw, hdr.Mask, pos 0); state table Fragmented' = !Fin, opCode' = first frame's opcode; an intermediate control frame leaves frame/opCode/utf8/State untouched), Reader.Read (decision table over frame present, fragmented, read outcome, bytes outstanding, UTF-8 validity), Reader.Discard (drain every fragment, then reset), readData (control -> handler with the Reader as source, unwanted -> Discard, wanted -> ReadAll(&rd), over scripted sequences of up to 3 frames) and ReadMessage. These are the wiring conditions every correct reassembly needs; the exactness of the concatenation over arbitrary frame sequences x chunkings x buffer sizes is a property of histories and is NOT decided here. The delivered payload is unmasked by CipherReader: the C02 stream-wrapper fold (cipher exactly the bytes the source returned, also when they arrive together with an error) is part of this check. The reader's own header decoder (decode table) and the header rules it applies (CheckHeader table) are part of this check. The control handlers (what they consume decides where the next frame is looked for) and the UTF-8 automaton (ReadMessage / ReadData validate text) are part of this check. The end-of-message reset and Discard must leave every configuration field of the Reader as it was. ReadMessage pulls payload bytes only through a Reader that still reads the connection r itself (a read-ahead layer would keep bytes of the next message); the helper-nextreader fold shows NextReader returns the very Reader that read the header, on the given source and state. nextframe-sizegate runs here as well: a frame of exactly MaxFrameSize bytes is delivered, not refused.",
 		Trusted: []string{"go/ssa + go/types", "the checker's abstract evaluator", "io.LimitedReader, io.Copy, io.ReadFull, ioutil.ReadAll, bytes.Buffer.ReadFrom behave as documented (modelled as effects)"},
 		Assume:  []string{"header decoding itself is C01; header validity is C03/C05"},
 		Run: func(c *Ctx) {
